@@ -107,8 +107,9 @@ Variable yl : str -> option val.
    5 = unprintable-str                  : a str holds a character PyYAML's reader refuses or folds (see bad_char)
    6 = comments-reemit                  : yaml_comments / --print_config=comments: the text is re-emitted by ruyaml
    7 = enum-member-null                 : an Enum member whose name is `null`
-   8 = default-not-normalised           : the leaf holds its declared default, unvalidated, and that value is not what
-       the parser makes of its own serialisation (int default under Union[float,int], 'NULL' under Optional[str])
+   8 = default-not-normalised           : the declared default is not what the parser makes of its own serialisation (int
+       default under Union[float,int], 'NULL' under Optional[str], '-1:30' under Union[int,str]) and it matters: the leaf
+       holds it unvalidated, or skip_default compares with it (parse_object({}) validates it, parse_string('{}') does not)
    (9, 10: repaired in /repo 2b39397; with fx_subclass_trim = true trim never answers TErr, nor TDel on differing dict_kwargs)
    9 = skip-default-none-default-crash  : skip_default (nulls kept) with a subclass spec over the declared default None:
        `default.get("class_path")` raises AttributeError
@@ -165,7 +166,7 @@ Definition leaf_class (vr : variant) (lw : leaf * val) : N :=
   else if has_null_enum w then 7%N
   else if vr_skip_none vr && ((is_vnone w && negb (is_vnone (lf_def lf))) || none_loss (top_fill (lf_ty lf)) (lf_ty lf) w
                            || sub_none_loss (lf_def lf) w) then 1%N
-  else if veq w (lf_def lf) && negb (leaf_stable_b (vr_skip_none vr) lf w) then 8%N
+  else if negb (leaf_stable_b (vr_skip_none vr) lf (lf_def lf)) && (veq w (lf_def lf) || vr_skip_default vr) then 8%N
   else if negb (N.eqb (skipdef_class vr lf w) 0) then skipdef_class vr lf w
   else text_class vr lf w.
 
